@@ -369,7 +369,14 @@ func (v *Val) DSL() string {
 		}
 		return sx("ptr", tinfo(x), u64(uint64(reflect.ValueOf(x).Pointer())), v.Elems[0].DSL())
 	case "safe":
-		return sx("safe", v.Elems[0].DSL(), hxs(fmt.Sprintf("%v", v.Elems[0].Build())))
+		// the wrapper's SafeMessage() text (no longer read by the model); computing it runs user
+		// methods, which may panic
+		msg := ""
+		func() {
+			defer func() { _ = recover() }()
+			msg = fmt.Sprintf("%v", v.Elems[0].Build())
+		}()
+		return sx("safe", v.Elems[0].DSL(), hxs(msg))
 	case "unsafe":
 		return sx("unsafe", v.Elems[0].DSL())
 	case "rs":
